@@ -108,6 +108,8 @@ type vfWorld struct {
 	spawnErr []string
 	badInst  map[int]bool // instances whose ActorOf returned an error (must never receive anything)
 	prelaunchSeen map[string]int
+	schedMsgs     map[int]*vfSched
+	schedIdentity []string
 }
 
 func newVfWorld(opts ...vivid.ActorSystemOption) *vfWorld {
@@ -466,6 +468,13 @@ func (a *vfActor) handle(ctx vivid.ActorContext, beh string) {
 		if m.Ref == "oncefail" {
 			a.fail(ctx, "scheduled")
 		}
+		if m.ID > 0 {
+			w.mu.Lock()
+			if orig, ok := w.schedMsgs[m.ID]; ok && orig != m {
+				w.schedIdentity = append(w.schedIdentity, fmt.Sprintf("%s received a different value than the *vfSched that was scheduled for #%d", path, m.ID))
+			}
+			w.mu.Unlock()
+		}
 	}
 }
 
@@ -574,6 +583,15 @@ func (a *vfActor) exec(ctx vivid.ActorContext, c *vfCmd) {
 		}
 	case "reply":
 		ctx.Reply(c.Arg)
+	case "sched":
+		sc := c.Arg.(*vfSchedCmd)
+		w.mu.Lock()
+		if w.schedMsgs == nil {
+			w.schedMsgs = map[int]*vfSched{}
+		}
+		w.schedMsgs[sc.Msg.ID] = sc.Msg
+		w.mu.Unlock()
+		a.execSched(ctx, sc)
 	}
 }
 
